@@ -518,7 +518,8 @@ impl G {
         };
         match kind {
             0 => {
-                let n = 1 + self.rng.below(8);
+                // mostly 1..8 fields; one struct in twelve is wider than 20 fields (sort / table-size boundaries)
+                let n = if !plain && self.rng.chance(1, 12) { 21 + self.rng.below(8) } else { 1 + self.rng.below(8) };
                 // the container's rename_all is in scope for the fields
                 let (ra0, deny, validate) = self.container_choices(plain);
                 let (fs, mut r2) = self.fields(n, ra0, None, false, plain);
